@@ -216,6 +216,13 @@ class BaseTemplate:
         for name, function in functions.items():
             setattr(self, "_" + name, function)
 
+        # Forget the macros of a previous version of the template
+        for name in [
+            name for name in self.__dict__
+            if name.startswith('_render_') and name[1:] not in functions
+        ]:
+            delattr(self, name)
+
         self._cooked = True
 
         if self.keep_body:
